@@ -956,3 +956,33 @@ def rfile_open(ctx, phase):
         jl = ctx.cell(c.fields[FJ('journal')])
         ctx.prove(isinstance(jl, PList) and len(jl.items) == 0, 'C08+C06:O8.10.restart.journal-reopens-empty')
         ctx.prove(Eq(c.fields[FJ('currentOffset')], HDR), 'C08+C06:O8.10.restart.appends-start-at-the-first-record-offset')
+
+
+@unit(name='FileJournal.defaultHeader', relpath=JMOD, qual=['FileJournal.__getDefaultHeader'], props=['C08', 'C06'],
+      doc='O8.10 (header): the default header is exactly FIRST_RECORD_OFFSET (40) bytes long - name padded to 24, version padded to 8, '
+          'pack("<II", format version, FIRST_RECORD_OFFSET) - so a fresh journal\'s last-record offset is the first record offset (what units '
+          'ResizableFile.open and FileJournal.reopen start from)',
+      trusted=['T-STRUCT'])
+def fj_default_header(ctx):
+    mod = source.load(JMOD)
+    fn, ci = mod.find('FileJournal.__getDefaultHeader')
+    obj = ctx.alloc(PObj('FileJournal', {}))
+    ext = dict(JEXT)
+    ext['str.encode'] = lambda I_, a, k: a[0].encode() if isinstance(a[0], str) else I_.raise_('TypeError')
+    I = Interp(ctx, registry=JREG, externals=ext)
+    I.cur_mod = mod
+    try:
+        h = I.call_funcdef(fn, mod, 'FileJournal', obj, [], {}, None, 'FileJournal.__getDefaultHeader')
+        outcome = 'ok'
+    except PyExc as e:
+        outcome, h = e.typ, None
+    ctx.prove(outcome == 'ok', 'C08:O8.10.header.no-exception', info=outcome)
+    if outcome != 'ok':
+        return
+    hb = to_bytestr(h)
+    ctx.prove(hb is not None and Eq(hb.n, HDR), 'C08+C06:O8.10.header.is-first-record-offset-bytes-long', info=repr(getattr(hb, 'n', h)))
+    if hb is None:
+        return
+    for k in range(4):
+        ctx.prove(hb.at(z3.IntVal(HOFF + k)) == LE32[k](z3.IntVal(HDR)), 'C08+C06:O8.10.header.last-record-offset-field-is-first-record-offset')
+        ctx.prove(hb.at(z3.IntVal(32 + k)) == LE32[k](z3.IntVal(1)), 'C08:O8.10.header.format-version-field')
